@@ -47,7 +47,6 @@ import (
 	"github.com/Cloud-Foundations/keymaster/lib/webapi/v0/proto"
 	"github.com/duo-labs/webauthn/protocol"
 	"github.com/duo-labs/webauthn/webauthn"
-	"github.com/fxamacker/cbor/v2"
 	sqlite3 "github.com/mattn/go-sqlite3"
 	"github.com/pquerna/otp/totp"
 	"github.com/tstranex/u2f"
@@ -345,15 +344,15 @@ func (tk *vfToken) assertion(challenge, origin, appID string, counter uint32) []
 	return body
 }
 
-// coseKey is the COSE_Key encoding of the token's public key (what a WebAuthn registration stores).
+// coseKey is the COSE_Key (CBOR) encoding of the token's public key, as a WebAuthn
+// registration stores it: {1: 2 (EC2), 3: -7 (ES256), -1: 1 (P-256), -2: x, -3: y}.
 func (tk *vfToken) coseKey() []byte {
 	x := tk.key.PublicKey.X.FillBytes(make([]byte, 32))
 	y := tk.key.PublicKey.Y.FillBytes(make([]byte, 32))
-	b, err := cbor.Marshal(map[int]interface{}{1: 2, 3: -7, -1: 1, -2: x, -3: y})
-	if err != nil {
-		panic(err)
-	}
-	return b
+	b := []byte{0xa5, 0x01, 0x02, 0x03, 0x26, 0x20, 0x01, 0x21, 0x58, 0x20}
+	b = append(b, x...)
+	b = append(b, 0x22, 0x58, 0x20)
+	return append(b, y...)
 }
 
 // ---------------------------------------------------------------- profiles with real token data
@@ -908,8 +907,8 @@ func (h *vfC15) op(f []string) string {
 		if err != nil || k < 0 {
 			return "bad-op"
 		}
-		e, _, hit, tr := h.sync(k, f[2] == "post")
-		return fmt.Sprintf("%s hit=%s tr=%s %s", vfErrWord(e), vfBool(hit), tr, h.digest())
+		e, _, hit, _ := h.sync(k, f[2] == "post")
+		return fmt.Sprintf("%s hit=%s %s", vfErrWord(e), vfBool(hit), h.digest())
 	case f[0] == "fsync" && len(f) == 2 && (f[1] == "pre" || f[1] == "post"):
 		// a fault at EVERY statement of the synchronisation, the cache restored in between
 		snap := h.snapshot(h.rawC)
